@@ -4607,6 +4607,11 @@ class UDFFileIdentifierDescriptor:
                 self.fi = bytename.encode('utf-16_be')
                 self.encoding = 'utf-16_be'
             self.len_fi = len(self.fi) + 1
+            if self.len_fi > 255:
+                # The length of the identifier is recorded in a single byte.
+                raise pycdlibexception.PyCdlibInvalidInput('UDF file identifiers can be a maximum of 254 bytes')
+            if not self.fi:
+                raise pycdlibexception.PyCdlibInvalidInput('UDF file identifiers must be at least 1 character long')
 
         self.parent = parent
 
